@@ -5,10 +5,10 @@ use ureq_proto::client::call::Call;
 
 pub struct P;
 
-const VERS: [Ver; 5] = [Ver::V09, Ver::V10, Ver::V11, Ver::V2, Ver::V3];
-const HOSTS: [&str; 5] = ["none", "one", "two-orig", "orig+added", "non-textual"];
-const CLS: [&str; 9] = ["none", "5", "0", "5-added", "dup-orig", "dup-orig+added", "-1", "abc", "xff"];
-const TES: [&str; 4] = ["none", "chunked", "gzip", "non-textual"];
+pub const VERS: [Ver; 5] = [Ver::V09, Ver::V10, Ver::V11, Ver::V2, Ver::V3];
+pub const HOSTS: [&str; 5] = ["none", "one", "two-orig", "orig+added", "non-textual"];
+pub const CLS: [&str; 9] = ["none", "5", "0", "5-added", "dup-orig", "dup-orig+added", "-1", "abc", "xff"];
+pub const TES: [&str; 4] = ["none", "chunked", "gzip", "non-textual"];
 const APIS: [&str; 3] = ["flow", "call-with-body", "call-without-body"];
 
 #[derive(PartialEq, Debug, Clone, Copy)]
@@ -58,7 +58,7 @@ fn model(ver: Ver, method: &str, host: &str, cl: &str, te: &str, despite: bool, 
     Exp::Accept
 }
 
-fn build(ver: Ver, method: &'static str, host: &str, cl: &str, te: &str, despite: bool) -> ReqCfg {
+pub fn build(ver: Ver, method: &'static str, host: &str, cl: &str, te: &str, despite: bool) -> ReqCfg {
     let mut c = ReqCfg::new(method, "http://h.test/p?q=1");
     c.ver = ver;
     c.despite = despite;
